@@ -98,8 +98,7 @@ Lemma ext_field : forall s a o e o' f b,
 Proof.
   intros s a o e o' f b Hh Hu Hd He.
   destruct (jappend_fields s e) as (J & G & O & R & N).
-  apply (ext_intro s _ [e]); ss; auto.
-  - rewrite J; reflexivity.
+  apply (ext_intro s _ [e]); [ss; auto | ss; auto | ss; rewrite J; reflexivity | ].
   - cbn [undos fold_left]. rewrite Hu.
     destruct (with_live_spec (put_obj (jappend s e) a o') a f b) as (G' & _ & P).
     eapply (eqv_frame s s); [apply eqv_refl | | reflexivity |].
@@ -133,8 +132,7 @@ Proof.
     destruct F as (F1 & F2 & F3 & F4 & F5).
     split; [|split; [split; ss; [unfold fupd; rewrite eqb_refl'|]; reflexivity | reflexivity]].
     eapply ext_trans; [exact E1|].
-    apply (ext_intro s1 _ [e]); ss; try congruence.
-    + rewrite J, F1; reflexivity.
+    apply (ext_intro s1 _ [e]); [ss; congruence | ss; congruence | ss; rewrite J, F1; reflexivity | ].
     + cbn [undos fold_left]. unfold e at 1. unfold undo.
       assert (X : forall t, (forall x, st_destruct t x = st_destruct s1 x) -> st_trie t = st_trie s1 ->
                   (forall x, peek t x = peek s1 x) ->
@@ -157,8 +155,7 @@ Proof.
     destruct (jappend_fields s1 e) as (J & G & O & R & N).
     split; [|split; [split; ss; [unfold fupd; rewrite eqb_refl'|]; reflexivity | reflexivity]].
     eapply ext_trans; [exact E1|].
-    apply (ext_intro s1 _ [e]); ss; try congruence.
-    + rewrite J; reflexivity.
+    apply (ext_intro s1 _ [e]); [ss; congruence | ss; congruence | ss; rewrite J; reflexivity | ].
     + cbn [undos fold_left]. unfold e at 1. unfold undo.
       eapply (eqv_frame s1 s1); [apply eqv_refl | | reflexivity |].
       * rewrite <- G. unfold glob; ss; reflexivity.
